@@ -178,6 +178,17 @@ CHECKS = {
         BASE_NOTE + 'Provider/config plumbing for priorities is exercised by the correspondence only.',
         'DESIGN.md section 5 C09',
     ),
+    'C07': (
+        'Rocq proof characterising the mirrored construction-time validation rule by rule + differential correspondence on conforming statements and single-rule mutants',
+        'Theorems (Properties/C07.v) for every statement: a query / join / set is constructible iff the documented rules hold '
+        '(elements of the queried source only; boolean filters and join conditions; no aggregates in where, grouping or join '
+        'conditions; every selected feature outside the grouping contains an aggregate; cross join without and other joins with '
+        'a condition; equal operand schemas for sets) and an expression iff its operand kinds are compatible. The verdict and '
+        'the schema (names/kinds in order, dictionary semantics for repeated names) of the model are compared with the real '
+        'constructors on conforming statements and on mutants violating exactly one rule, plus an independent oracle.',
+        BASE_NOTE + 'Window functions, Decimal and compound kinds are outside the generated grammar and the model.',
+        'DESIGN.md section 5 C07',
+    ),
 }
 NOT_YET = 'model and theorems not built yet in this round (planned, see DESIGN.md section 5/9)'
 
